@@ -217,6 +217,8 @@ def isa_class(mnem, ops):
         return 'sse3'
     if m in _SSE2_ON_MM:
         return 'sse2'
+    if m == 'pextrw' and kinds and kinds[-1] == 'm':
+        return 'sse4.1'                    # pextrw with a memory destination is the 66 0F 3A 15 form introduced by SSE4.1
     if m in _MMXEXT:
         return 'sse2' if has_xmm else 'mmxext'
     if m in _MMX:
